@@ -151,6 +151,10 @@ thread_local! {
     static GUARDS: RefCell<Vec<DefaultGuard>> = const { RefCell::new(Vec::new()) };
 }
 static LOG: Mutex<Vec<Vec<u64>>> = Mutex::new(Vec::new());
+/// what the operation a worker is executing does at yield point 10: 1 = rebuild_interest_cache (Rebuild, Reload), 2 = register_dispatch (New)
+static CUR_W: [std::sync::atomic::AtomicU8; 8] = [const { std::sync::atomic::AtomicU8::new(0) }; 8];
+/// lock kinds as calibrated on the repository under check (true = exclusive): rebuild_interest_cache, register_dispatch, register
+static EXCL: [AtomicBool; 3] = [AtomicBool::new(true), AtomicBool::new(true), AtomicBool::new(false)];
 fn log(e: Vec<u64>) {
     LOG.lock().unwrap().push(e);
 }
@@ -315,6 +319,9 @@ fn spec_of(fid: usize) -> Spec {
 fn run_op(op: &Op) {
     let t = tidx();
     let tb = tables();
+    if (t as usize) < CUR_W.len() {
+        CUR_W[t as usize].store(match *op { Op::New(..) => 2, Op::Rebuild | Op::Reload(..) => 1, _ => 0 }, Ordering::SeqCst);
+    }
     match *op {
         Op::Emit(cs) => {
             DELIVERED.with(|d| d.set(None));
@@ -508,6 +515,7 @@ fn main() {
     let mut sched: Vec<usize> = Vec::new();
     let mut hist: Vec<(usize, Op)> = Vec::new();
     let mut pre: Vec<(usize, Op)> = Vec::new();
+    let mut calibrate = false;
     for (ln, line) in text.lines().enumerate() {
         let line = line.split('#').next().unwrap().trim();
         if line.is_empty() { continue; }
@@ -518,6 +526,17 @@ fn main() {
         };
         match kw {
             "threads" => nthreads = rest.trim().parse().unwrap_or_else(|_| bad()),
+            // `locks K K K` (K = excl | shared): the kind of lock rebuild_interest_cache / register_dispatch / register take on the
+            // dispatcher list in the repository under check, as measured by a `calibrate` case; decides when a thread parked
+            // before such an acquisition is runnable
+            "locks" => {
+                let w: Vec<&str> = rest.split_whitespace().collect();
+                if w.len() != 3 { bad() }
+                for (i, k) in w.iter().enumerate() { EXCL[i].store(match *k { "excl" => true, "shared" => false, _ => bad() }, Ordering::SeqCst); }
+            }
+            // `calibrate`: thread 1 is run until it sits inside `register` holding its lock, thread 0 until it is parked before its
+            // acquisition; then thread 0 is released REGARDLESS of the lock state and given 400 ms to reach its next yield point
+            "calibrate" => calibrate = true,
             "filter" => {
                 let w: Vec<&str> = rest.split_whitespace().collect();
                 let n = |i: usize| -> u8 { w.get(i).and_then(|x| x.parse::<u8>().ok()).unwrap_or_else(|| bad()) };
@@ -624,7 +643,57 @@ fn main() {
     }
     for t in 0..nthreads { op_tx[t].send(Msg::Phase1).unwrap(); }
 
-    if has_phase1 {
+    if has_phase1 && calibrate {
+        for t in 0..nthreads {
+            if settle(t).is_none() { hang(t, -1, 1); }
+        }
+        let release = |t: usize| {
+            let mut g = s.m.lock().unwrap();
+            g.status[t] = Status::Running;
+            g.go[t] = true;
+            s.cv.notify_all();
+        };
+        // thread 1 into `register`, holding its lock (parked at 31 = before set_interest; 30 if a dispatcher exists)
+        let mut inside = false;
+        for _ in 0..12 {
+            match s.m.lock().unwrap().status[1] { Status::Parked(30) | Status::Parked(31) => { inside = true; break; } Status::Done => break, _ => {} }
+            release(1);
+            if settle(1).is_none() { hang(1, -2, 1); }
+        }
+        // thread 0 up to the point before its acquisition
+        let mut before = 0u32;
+        for _ in 0..6 {
+            match s.m.lock().unwrap().status[0] { Status::Parked(id @ (10 | 20)) => { before = id; break; } Status::Done => break, _ => {} }
+            release(0);
+            if settle(0).is_none() { hang(0, -3, 1); }
+        }
+        let mut shared: Option<bool> = None;
+        if inside && before != 0 {
+            release(0);
+            let deadline = Instant::now() + Duration::from_millis(400);
+            let mut g = s.m.lock().unwrap();
+            loop {
+                match g.status[0] { Status::Running => {} _ => { shared = Some(true); break; } }
+                let now = Instant::now();
+                if now >= deadline { shared = Some(false); break; }
+                g = s.cv.wait_timeout(g, deadline - now).unwrap().0;
+            }
+        }
+        out(format!("{{\"k\":\"calib\",\"inside\":{},\"before\":{},\"shared\":{}}}", inside, before,
+                    match shared { Some(true) => "true", Some(false) => "false", None => "null" }));
+        {
+            let mut g = s.m.lock().unwrap();
+            g.free = true;
+            s.cv.notify_all();
+        }
+        let deadline = Instant::now() + WAIT;
+        loop {
+            if s.m.lock().unwrap().status.iter().all(|x| *x == Status::Done) { break; }
+            if Instant::now() >= deadline { hang(0, -4, 1); }
+            std::thread::sleep(Duration::from_millis(5));
+        }
+        out("{\"k\":\"drained\"}".to_string());
+    } else if has_phase1 {
         for t in 0..nthreads {
             if settle(t).is_none() { hang(t, -1, 1); }
         }
@@ -635,18 +704,20 @@ fn main() {
             let st = s.m.lock().unwrap().status[t];
             // every worker is parked here, so the probe sees exactly the locks held by parked threads
             let (can_read, can_write) = lock_probe().unwrap_or((sh_writer.is_none(), sh_writer.is_none() && sh_readers == 0));
+            let wants_excl = |t: usize, id: u32| -> bool {
+                if id == 20 { EXCL[2].load(Ordering::SeqCst) }
+                else if t < CUR_W.len() && CUR_W[t].load(Ordering::SeqCst) == 2 { EXCL[1].load(Ordering::SeqCst) }
+                else { EXCL[0].load(Ordering::SeqCst) }
+            };
             let runnable = match st {
                 Status::Done | Status::Running => false,
-                Status::Parked(10) => can_write,
-                Status::Parked(20) => can_read,
+                Status::Parked(id @ (10 | 20)) => if wants_excl(t, id) { can_write } else { can_read },
                 Status::Parked(_) => true,
             };
             if !runnable { ys.push(998); continue; }
             match st {
-                Status::Parked(10) => sh_writer = Some(t),
-                Status::Parked(19) => sh_writer = None,
-                Status::Parked(20) => sh_readers += 1,
-                Status::Parked(29) => sh_readers -= 1,
+                Status::Parked(id @ (10 | 20)) => if wants_excl(t, id) { sh_writer = Some(t) } else { sh_readers += 1 },
+                Status::Parked(19) | Status::Parked(29) => if sh_writer == Some(t) { sh_writer = None } else { sh_readers -= 1 },
                 _ => {}
             }
             {
@@ -668,8 +739,8 @@ fn main() {
             let (can_read, can_write) = lock_probe().unwrap_or((true, true));
             s.m.lock().unwrap().status.iter().all(|x| match x {
                 Status::Done => true,
-                Status::Parked(10) => !can_write,
-                Status::Parked(20) => !can_read,
+                Status::Parked(10) => !(if EXCL[0].load(Ordering::SeqCst) || EXCL[1].load(Ordering::SeqCst) { can_write } else { can_read }),
+                Status::Parked(20) => !(if EXCL[2].load(Ordering::SeqCst) { can_write } else { can_read }),
                 _ => false,
             })
         };
